@@ -207,10 +207,10 @@ prop("C02", ["c02_cleanup_temp_debris", "proto_glue", "raw_insert_or_update_basi
      outside=["power-loss reordering of un-fsynced directory updates (documented: directories are not fsynced)", "validity is asserted at every call boundary of KFS, i.e. at every point where the process can die between two system calls"],
      assumptions=COMMON_ASSUME)
 prop("C03", ["stack_gou_glue", "stack_ops_glue", "stack_finalize_glue", "raw_insert_or_update_basic", "raw_insert_or_touch_basic", "stack_ops_sanity_twin"],
-     ["stackc_set_temp_w1r1_fault", "stackc_set_temp_w1r1", "stackc_put_temp_w1r1", "stackc_put_temp_w1r1_fault", "stackc_set_w1r1", "stackc_set_w1r1_fault", "stackc_put_w1r1", "stack_set_temp_w1r1", "stack_set_temp_w1r1_fault", "stack_set_w1r1", "stack_put_temp_w2r0"],
+     ["stackc_set_temp_w1r1_fault", "stackc_set_temp_w1r1", "stackc_put_temp_w1r1", "stackc_put_temp_w1r1_fault", "stackc_set_w1r1", "stackc_set_w1r1_fault", "stackc_put_w1r1", "stack_set_temp_w1r1", "stack_set_w1r1"],
      outside=["whether the kernel's fsync is durable", "value sizes (content ids)"], assumptions=COMMON_ASSUME)
 prop("C04", ["stack_gou_glue", "proto_glue", "plain_get_env", "plain_touch_env", "raw_insert_or_touch_basic", "raw_touch_basic", "raw_ops_sanity_twin"],
-     ["plain_put_seq", "stackc_put_w1r1", "stack_put_w1r1"],
+     ["plain_put_seq", "stackc_put_w1r1"],
      outside=["linearizability is decided as a forward simulation per operation (linearization point = the publishing / opening call), not by enumerating histories"],
      assumptions=COMMON_ASSUME + [RELY])
 prop("C05", ["c05_cleanup_temp_vanish", "proto_glue", "plain_get_env", "plain_touch_env", "raw_apply_update_evict_a_moveback_b", "raw_collect_a_temp", "raw_ops_sanity_twin"],
@@ -242,10 +242,10 @@ prop("C12", ["proto_glue", "c12_mapping", "c12_constants", "c12_new_clamps", "sh
      outside=["directory names for shard indices >= 2^20", "probe order is checked with the two candidate ids fixed to (0,1) and (1,0)"],
      assumptions=COMMON_ASSUME + ["z3 and cvc5 agree (both consulted on every obligation)"])
 prop("C13", ["readonly_glue", "stack_gou_glue", "stack_ops_glue", "stack_get_w1r1_nock", "stack_touch_w1r2", "stack_set_w0r1", "stack_ops_sanity_twin"],
-     ["stackc_set_w1r1", "stackc_touch_w1r2", "stackc_get_w1r2_bytes", "stackc_put_w1r1", "stackc_set_temp_w1r1", "stackc_put_temp_w1r1", "stack_set_w1r1", "stack_put_w1r1", "stack_set_temp_w1r1", "stack_put_temp_w2r0", "stack_put_temp_w0r1", "stack_get_w0r2_bytes", "stack_get_w1r0_nock", "stack_get_w0r1_nock", "readonly_builder_equiv"],
+     ["stackc_set_w1r1", "stackc_touch_w1r2", "stackc_put_w1r1", "stackc_set_temp_w1r1", "stackc_put_temp_w1r1", "stack_set_w1r1", "stack_set_temp_w1r1", "stack_put_temp_w0r1", "stack_get_w0r2_bytes", "stack_get_w1r0_nock", "stack_get_w0r1_nock", "readonly_builder_equiv"],
      outside=["stack shapes other than those listed (writer in {none, plain, sharded} x up to two plain readers)"], assumptions=COMMON_ASSUME)
 prop("C14", ["builder_glue", "readonly_glue", "stack_gou_glue", "stack_ops_glue", "stack_get_w1r1_nock", "stack_ops_sanity_twin"],
-     ["stackc_get_w1r2_bytes", "stack_get_w0r2_bytes", "readonly_builder_equiv"],
+     ["stack_get_w0r2_bytes", "readonly_builder_equiv"],
      outside=["checkers other than none / byte equality (the panicking checker is the same comparison followed by expect())"], assumptions=COMMON_ASSUME)
 prop("C15", ["proto_glue", "stack_get_w1r0_nock", "stack_touch_w1r2", "plain_get_seq", "stack_ops_sanity_twin"],
      ["stack_get_w1r1_nock", "stack_get_w0r2_bytes", "stack_set_w1r1", "sharded_get_01", "plain_invalid_name_dot"],
@@ -256,11 +256,11 @@ prop("C17", ["raw_prune_pieces_dotfile_only", "c02_cleanup_temp_by_age", "raw_co
      ["raw_apply_update_evict_a_moveback_b"],
      outside=["nested directories below the cache directory (never listed: directories are skipped)"], assumptions=COMMON_ASSUME)
 prop("C18", ["stack_gou_glue", "proto_glue", "stack_ops_glue", "stack_finalize_glue", "plain_get_fault", "plain_touch_fault", "plain_ops_sanity_twin"],
-     ["stackc_set_temp_w1r1_fault", "plain_set_fault", "plain_put_fault", "sharded_put_absent_fault", "stackc_set_w1r1_fault", "stackc_put_temp_w1r1_fault", "stack_set_temp_w1r1_fault", "stack_set_w1r1_fault"],
+     ["stackc_set_temp_w1r1_fault", "plain_set_fault", "plain_put_fault", "sharded_put_absent_fault", "stackc_set_w1r1_fault", "stackc_put_temp_w1r1_fault", "stack_set_w1r1_fault"],
      outside=["more than one failing call per operation", "failures inside the caller's populate function other than its own error return", "re-issuing the operation after the fault is covered by the fault-free harnesses starting from arbitrary valid states (C02)"],
      assumptions=COMMON_ASSUME)
 prop("C19", ["readonly_glue", "stack_gou_glue", "proto_glue", "stack_ops_glue", "stack_finalize_glue", "plain_get_seq", "stack_get_w1r0_nock", "raw_insert_or_update_basic", "stack_ops_sanity_twin"],
-     ["stack_get_w1r1_nock", "stackc_set_temp_w1r1", "stackc_put_temp_w1r1", "stack_set_temp_w1r1", "stack_put_temp_w2r0", "plain_set_seq", "sharded_get_01"],
+     ["stack_get_w1r1_nock", "stackc_set_temp_w1r1", "stackc_put_temp_w1r1", "stack_set_temp_w1r1", "plain_set_seq", "sharded_get_01"],
      outside=["the no-writer miss path returns the throw-away temp file itself (read-write by construction): only its offset is checked"],
      assumptions=COMMON_ASSUME + ["the process umask only influences the initial mode of caller-supplied files, which is symbolic"])
 prop("C20", ["proto_glue", "plain_get_seq", "plain_touch_seq", "stack_get_w1r0_nock", "plain_ops_sanity_twin"],
